@@ -29,7 +29,9 @@ def run_one(m):
             open(p, "w").write(s)
         out = {}
         for pid in m["pids"]:
-            e = dict(os.environ, VERIF_REPO=d)
+            os.makedirs(os.path.join(d, "work"), exist_ok=True)
+            os.makedirs(os.path.join(d, "evidence"), exist_ok=True)
+            e = dict(os.environ, VERIF_REPO=d, VERIF_WORK=os.path.join(d, "work"), VERIF_EVIDENCE=os.path.join(d, "evidence"))
             p = subprocess.run([os.path.join(VERIF, "check"), pid, "--tier", "quick"], cwd=VERIF, env=e,
                                stdout=subprocess.PIPE, stderr=subprocess.STDOUT)
             txt = p.stdout.decode("utf-8", "replace")
